@@ -250,8 +250,10 @@ def microdvd_writer(ctx, report, ev):
     outs = [o for o in ev().run(fn) if isinstance(o.value, Poly)]
     if len(outs) != 1:
         raise AnalysisError("_microtoframes: expected one path")
+    # (the two parameters by position: microseconds, frames per second)
+    p_us, p_fps = ("$" + fn.params[-2], "$" + fn.params[-1]) if len(fn.params) >= 2 else ("$micro", "$fps")
     check_affine(report, "R-AFFINE", fn, "microseconds -> frame number (us * fps / 10^6, truncated)", outs[0].value,
-                 {"$fps*$micro": Fraction(1, 10**6)}, {"$fps", "$micro"}, "1", want_floor=True)
+                 {"*".join(sorted([p_fps, p_us])): Fraction(1, 10**6)}, {p_fps, p_us}, "1", want_floor=True)
     a = fn.node.args
     d = a.defaults[-1] if a.defaults else None
     def _default_value(f_, node_):
@@ -276,7 +278,7 @@ def microdvd_writer(ctx, report, ev):
                  "R-TABLE-SIBLING", fn, "reader and writer use the same default frame rate",
                  {"writer": dv, "reader": adv}, "1")
     ret = resolve_local(fn, [n.value for n in walk_no_nested(fn.node) if isinstance(n, ast.Return)][0])
-    kinds = {"micro": "int", "fps": "intfloat" if isinstance(dv, float) and float(dv).is_integer() else "int"}
+    kinds = {p_us[1:]: "int", p_fps[1:]: "intfloat" if isinstance(dv, float) and float(dv).is_integer() else "int"}
     rounds = _roundings(ret, kinds)
     report.check(rounds <= 1, "R-EXACT", fn, "frame number is not truncated from a twice-rounded float",
                  {"expression": short(ret), "float_roundings_before_truncation": rounds}, "1")
